@@ -185,6 +185,9 @@ func (r Rng) lineCase() (lon0, lat0, alt0, lon1, lat1, alt1 float64, H, V int64)
 		if r.Chance(0.5) {
 			x0 = nh - x0
 		}
+		if r.Chance(0.3) { // within 1e-10 .. 1e-12 degrees of longitude +180, still west of it
+			x0 = nh * (1 - math.Ldexp(1, -int(r.In(41, 46))))
+		}
 	}
 	dx, dy, df := (r.Float64()*2-1)*n, (r.Float64()*2-1)*n, (r.Float64()*2-1)*n
 	switch r.Intn(8) {
@@ -208,8 +211,8 @@ func (r Rng) lineCase() (lon0, lat0, alt0, lon1, lat1, alt1 float64, H, V int64)
 	clamp := func(v, lo, hi float64) float64 { return math.Max(lo, math.Min(hi, v)) }
 	// (longitude exactly +180 is folded to -180 by the library: such a segment ends across the
 	// antimeridian from where it arrives, which C06's "straight segment" does not cover)
-	x1, y1, f1 = clamp(x1, 0, nh*(1-math.Ldexp(1, -40))), clamp(y1, 0, nh), clamp(f1, -nv, nv)
-	x0 = clamp(x0, 0, nh*(1-math.Ldexp(1, -40)))
+	x1, y1, f1 = clamp(x1, 0, nh*(1-math.Ldexp(1, -46))), clamp(y1, 0, nh), clamp(f1, -nv, nv)
+	x0 = clamp(x0, 0, nh*(1-math.Ldexp(1, -46)))
 	lon0, lat0, alt0 = realCoord(x0, y0, f0, H, V)
 	lon1, lat1, alt1 = realCoord(x1, y1, f1, H, V)
 	cl := func(v float64) float64 { return clamp(v, -latLimit, latLimit) }
